@@ -227,7 +227,7 @@ def run_jobs(jobs, optable, scratch, per_job_timeout):
             r2 = attempt(i, job, True)
             if any(r2['viol'].values()):
                 for p_, v_ in r2['viol'].items():
-                    r['viol'][p_] = ['[fresh executor: scratch fields counter1..3 zero] ' + x for x in v_]
+                    r['viol'][p_] = [x + ' [fresh executor: scratch fields counter1..3 zero]' for x in v_]      # suffix: known-finding keys match on the start of the message
                 r['counterexamples'] = r2.get('counterexamples', [])
                 r['paths'] = r2.get('paths', 0)
                 r['notes'] = list(r.get('notes', [])) + ['exploration with arbitrary executor scratch contents did not finish (%s); decided for a fresh executor' % r['status']]
